@@ -53,6 +53,23 @@ func emit(c *vh.Ctx, o *outcome, synced map[string]bool, debug bool) {
 		}
 	}
 
+	if !completed {
+		// ... nor after an aborted handshake: whatever the scenario, the connection must not report an unoffered value
+		fs := r.FinalState
+		if fs.NegotiatedProtocol != "" && !hs.ContainsStr(w.ALPN, fs.NegotiatedProtocol) {
+			c.Fail("alpn-reported-after-abort/"+name, "after the aborted handshake ConnectionState.NegotiatedProtocol holds a protocol that was not offered on the wire",
+				input, map[string]any{"negotiated_protocol": fs.NegotiatedProtocol, "client_error": errStr(r.ClientErr)}, w.ALPN)
+		}
+		if fs.CipherSuite != 0 && !hs.ContainsU16(w.CipherSuites, fs.CipherSuite) {
+			c.Fail("suite-reported-after-abort/"+name, "after the aborted handshake ConnectionState.CipherSuite holds a suite that was not offered on the wire",
+				input, map[string]any{"suite": fs.CipherSuite, "client_error": errStr(r.ClientErr)}, w.CipherSuites)
+		}
+		if r.FinalCurve != 0 && !hs.ContainsU16(w.KeyShareGroups, r.FinalCurve) && !hs.ContainsU16(w.SupportedGroups, r.FinalCurve) {
+			c.Fail("curve-reported-after-abort/"+name, "after the aborted handshake the connection holds a key-exchange group that was not offered on the wire",
+				input, map[string]any{"curve": r.FinalCurve, "client_error": errStr(r.ClientErr)}, append(append([]uint16{}, w.KeyShareGroups...), w.SupportedGroups...))
+		}
+	}
+
 	// ---- (a) view / wire synchronisation (once per parrot) ----
 	vt := hs.ViewTerm(r)
 	wt := hs.WireTerm(w)
@@ -73,7 +90,7 @@ func emit(c *vh.Ctx, o *outcome, synced map[string]bool, debug bool) {
 	}
 	nontrivial := o.unoff || completed
 	ckey := fmt.Sprintf("%s/%s/%s/%s", o.sc.kind, o.sc.variant, name, o.val)
-	c.Case(o.sc.kind+"-"+o.sc.variant, fmt.Sprintf("(CRun %s %s %s %s %s %s)", vh.Bool(hs.TreeFixed()), vt, r.KeyShape, wt, fl, hs.ObsTerm(r)), ckey, nontrivial,
+	c.Case(o.sc.kind+"-"+o.sc.variant, fmt.Sprintf("(CRun %s %s %s %s %s %s)", vh.Bool(hs.TreeFixed()), vt, r.KeyShape, wt, fl, hs.ObsTermFinal(r)), ckey, nontrivial,
 		map[string]any{"parrot": name, "kind": o.sc.kind, "variant": o.sc.variant, "forced": o.val, "completed": completed,
 			"client_error": errStr(r.ClientErr), "alert": hs.ClientAlert(r)})
 	if debug {
